@@ -4,7 +4,7 @@ from typing import List, Tuple, Iterable
 import re
 from moPepGen.SeqFeature import FeatureLocation
 from moPepGen.seqvar.VariantRecord import VariantRecord
-from moPepGen import seqvar, gtf, ERROR_INDEX_IN_INTRON
+from moPepGen import seqvar, gtf
 
 
 def parse(path:str, transcript_id_column:int=16
@@ -149,9 +149,9 @@ class REDItoolsRecord():
             tx_model:gtf.TranscriptAnnotationModel = anno.transcripts[tx_id]
             try:
                 position = tx_model.get_transcript_index(self.position - 1)
-            except ValueError as e:
-                if e.args[0] == ERROR_INDEX_IN_INTRON:
-                    continue
+            except ValueError:
+                # intronic in, or outside of, this transcript
+                continue
             gene_id = tx_model.transcript.gene_id
             gene_model = anno.genes[gene_id]
             strand = gene_model.strand
